@@ -307,6 +307,25 @@ func runFwConfig(c *hx.Ctx) {
 			rules   []any
 		}{inb, []any{map[string]any{"proto": "any", "port": "any", "groups": []any{}, "group": "", "host": "", "cidr": "", "local_cidr": "", "ca_name": "", "ca_sha": ""}}})
 	}
+	// boundary corpus: port ranges at the edges of the port space (1-65535 is NOT any: no fragments, no ICMP under proto any)
+	nEmptySel := len(corpus)
+	for _, inb := range []bool{true, false} {
+		for _, proto := range []string{"tcp", "udp", "any"} {
+			for ri, rs := range fwEdgeRanges {
+				if !fwEdgeWanted(c.Tier, inb, proto, ri) {
+					continue
+				}
+				var rules []any
+				for _, se := range rs.ranges {
+					rules = append(rules, map[string]any{"proto": proto, "port": fmt.Sprintf("%d-%d", se[0], se[1]), "host": "any"})
+				}
+				corpus = append(corpus, struct {
+					inbound bool
+					rules   []any
+				}{inb, rules})
+			}
+		}
+	}
 	nConf := c.N/2 + len(corpus)
 	for ci := 0; ci < nConf; ci++ {
 		inbound := c.Chance(0.6)
@@ -433,6 +452,15 @@ func runFwConfig(c *hx.Ctx) {
 				}
 			}
 			np := 4 + c.Intn(5)
+			if fromCorpus {
+				np = 3 // the two "nobody" probes and one aimed probe
+			}
+			edge := fromCorpus && ci >= nEmptySel
+			var edgePkts []firewall.Packet
+			if edge {
+				edgePkts = fwEdgePackets()
+				np = len(edgePkts)
+			}
 			for pi := 0; pi < np; pi++ {
 				peer := w.genPeer(false)
 				pkt := w.genPacket(peer, false)
@@ -463,6 +491,9 @@ func runFwConfig(c *hx.Ctx) {
 						}
 					}
 				}
+				if edge {
+					peer, pkt, incoming = fwEdgePeer, edgePkts[pi], inbound
+				}
 				hp := fw.NewPeer(peer)
 				fw.ResetConntrack()
 				class, before, after := fw.Drop(pkt, incoming, hp, nil)
@@ -474,8 +505,10 @@ func runFwConfig(c *hx.Ctx) {
 		lit := hx.App("CConf", hx.Bool(inbound), tblLit, hx.List(ppLits), hx.N(uint64(recClass)), hx.List(recLits),
 			hx.App("mkConf", fwPfxList(w.my.Networks), fwPfxList(w.my.Unsafe), hx.Bool(w.dlca)), hx.N(uint64(fwClass)), poolLit, hx.List(probeLits))
 		kind := []string{"conf-loaded", "conf-refused", "conf-panic"}[recClass]
-		if fromCorpus {
+		if fromCorpus && ci < nEmptySel {
 			kind = "corpus-empty-selector-" + kind[5:]
+		} else if fromCorpus {
+			kind = "corpus-port-range-" + kind[5:]
 		}
 		cw.Add(lit, kind, recClass == 0 && len(rec.Rules) > 0, map[string]any{"op": "conf", "yaml": text, "inbound": inbound, "rec_class": recClass, "fw_class": fwClass,
 			"rules": jrules, "probes": jprobes})
